@@ -1074,9 +1074,51 @@ func c17NodeSize(r *core.Run) {
 	r.Floor("C17.REC", "composite expression nodes with a recorded size", n, 1)
 }
 
+// c17SizeRead: the helper that answers with a node's recorded size does so when a size IS recorded (size > 0) and
+// counts 1 otherwise. With the test turned round it answers 1 for every node, the tree-size cap never trips, and
+// shared sub-expressions are expanded exponentially.
+func c17SizeRead(r *core.Run) {
+	p := r.P
+	n := 0
+	for _, fn := range p.FuncsIn("pkg/analysis/loop") {
+		rt := resultTypes(fn)
+		if len(rt) != 1 || rt[0].String() != "int" {
+			continue
+		}
+		for _, ret := range core.Returns(fn) {
+			base, name, isF := fieldLoadBy(core.Unwrap(ret.Results[0]), isIntegerType)
+			if !isF || !strings.HasSuffix(core.Deref(base.Type()).String(), "loop.SCEVGenericExpr") {
+				continue
+			}
+			n++
+			ok1, n1, _ := core.MustPass(fn, ret.Block(), func(cond ssa.Value) (bool, bool) {
+				op, x, y, neg, okC := core.Compare(cond)
+				if !okC || neg {
+					return false, false
+				}
+				_, n2, isF2 := fieldLoadBy(core.Unwrap(x), isIntegerType)
+				k, isK := core.ConstInt(y)
+				if !isF2 || n2 != name || !isK {
+					return false, false
+				}
+				switch {
+				case op == token.GTR && k == 0, op == token.GEQ && k == 1, op == token.NEQ && k == 0:
+					return true, true
+				case op == token.LEQ && k == 0, op == token.LSS && k == 1, op == token.EQL && k == 0:
+					return true, false
+				}
+				return false, false
+			})
+			r.Check(ok1 && n1 > 0, "C17.REC", core.FuncName(fn)+"#recorded-size-read-when-positive", ret.Pos(), "the recorded size is returned when one is recorded (> 0)", "the recorded size of a composite node is returned under another test than 'it is positive': every composite node counts as 1, the tree-size cap never trips and chains of shared sub-expressions are expanded as 2^depth")
+		}
+	}
+	r.Floor("C17.REC", "reads of a node's recorded size", n, 1)
+}
+
 func c17Caps(r *core.Run) {
 	p := r.P
 	c17NodeSize(r)
+	c17SizeRead(r)
 	// candidate buckets
 	n := 0
 	for _, fn := range p.FuncsIn("pkg/diff") {
